@@ -197,7 +197,9 @@ func TestVerifC16(t *testing.T) {
 			k := o.key(st.N, st.D)
 			switch st.A {
 			case "ProbeOk":
-				_, _ = dl.Check(&CheckOption{networkType: nt, CheckFunc: func(context.Context, *NetworkType) (bool, error) { return true, nil }})
+				// the probe takes 0, 1 or 2 ms by turns: revivals come with latencies above and below earlier ones
+				lat := time.Duration((len(trail)+bi)%3) * time.Millisecond
+				_, _ = dl.Check(&CheckOption{networkType: nt, CheckFunc: func(context.Context, *NetworkType) (bool, error) { time.Sleep(lat); return true, nil }})
 				o.revive(st.N, st.D)
 			case "ProbeFail":
 				_, _ = dl.Check(&CheckOption{networkType: nt, CheckFunc: func(context.Context, *NetworkType) (bool, error) { return false, errors.New("probe failed") }})
